@@ -820,7 +820,7 @@ where
 
         // setup supervision
         if let Some(sup) = &supervisor {
-            if !actor_ref.try_link(sup.clone()) {
+            if !actor_ref.try_link_starting(sup.clone()) {
                 return Err(SpawnErr::StartupFailed(
                     "Supervisor is shutting down".into(),
                 ));
